@@ -41,7 +41,9 @@ name occurrence, spacing, continuation lines, decoy comments, duplicate calls, c
 {"items": [{"name", "kind", "ignored", "file"}], "edges": [[a, b]...]} in insertion order.
 
 Additions for C23 / C24 / C25 (existing behaviour unchanged; `Layout.case` merely accepts the occurrence class):
-* `ClassLayout(classes)` — plain layout whose letter case is decided per occurrence class (def / use / cfg / seed / file);
+* `ClassLayout(classes, seed)` — plain layout whose letter case is decided per occurrence class (def / use / cfg / seed /
+  file), or with mode 'each' independently for every single occurrence; `render_project(..., renames=)` renders imported
+  callees under local aliases (`use m, only: al => k`, `use m, al => k`): a layout choice, the abstract project is unchanged;
   `render_project(..., layout=, iface=True)` declares called free procedures in explicit interface blocks.
 * operation records `op_record(op, k, sfx, msfx, sub)` (dep | wrap | dup | rm) and `make_transformation(op)`;
   `cli_config / cli_run / parse_plan` drive `loki_transform plan|convert` in-process.
@@ -172,22 +174,29 @@ class ClassLayout(Layout):
     cfg   configuration keys and disable/block/ignore entries
     seed  seed routine names
     file  file stems
-    classes: {class: mode}, mode in CASE_MODES (missing class = lower)."""
+    classes: {class: mode}, mode in CASE_MODES (missing class = lower) or 'each': every single OCCURRENCE of that class
+    draws its own mode (seeded by `seed`), so that e.g. the alias in a USE statement and each call site differ."""
 
-    def __init__(self, classes=None):
-        super().__init__(None, True)
+    def __init__(self, classes=None, seed=0):
+        super().__init__(random.Random(seed), True)
         self.classes = dict(classes or {})
 
     def case(self, name, cls=None):
-        return apply_case(name, self.classes.get(cls, 'lower'))
+        mode = self.classes.get(cls, 'lower')
+        if mode == 'each':
+            mode = self.rng.choice(CASE_MODES)
+        return apply_case(name, mode)
 
 
-def _use_stmt(imp, lay, indent):
+def _use_stmt(imp, lay, indent, ren=None):
+    """ren: {imported name: local alias} -- rendered as `alias => name` in the ONLY list, or, for an import without ONLY
+    list, as a rename list `use m, alias => name` (render_project(..., renames=))."""
     kw = lay.kw('use')
     mod = lay.case(imp['mod'], 'use')
     if not imp['only']:
-        return [f'{indent}{kw} {mod}']
-    syms = [lay.case(s, 'use') for s in imp['only']]
+        rl = ''.join(f', {lay.case(a, "use")} => {lay.case(n, "use")}' for n, a in (ren or {}).items())
+        return [f'{indent}{kw} {mod}{rl}']
+    syms = [lay.case(s, 'use') if s not in (ren or {}) else f'{lay.case(ren[s], "use")} => {lay.case(s, "use")}' for s in imp['only']]
     sep = ', ' if not lay.coin(0.3) else ','
     if len(syms) > 1 and lay.coin(0.3):
         # continuation line inside the ONLY list
@@ -196,7 +205,10 @@ def _use_stmt(imp, lay, indent):
     return [f'{indent}{kw} {mod},{" " if not lay.coin(0.2) else ""}{lay.kw("only")}{colon}{sep.join(syms)}']
 
 
-def _render_proc(proc, lay, indent, iface=()):
+def _render_proc(proc, lay, indent, iface=(), ren=None):
+    """ren: {import index: {imported name: alias}} of this procedure; renamed callees are called by their alias."""
+    ren = ren or {}
+    alias = {n: a for m in ren.values() for n, a in m.items()}
     name = proc['name']
     lines = []
     prefix = ''
@@ -205,8 +217,8 @@ def _render_proc(proc, lay, indent, iface=()):
     sub = lay.kw('subroutine')
     lines.append(f'{indent}{prefix}{sub} {lay.case(name, "def")}(a)')
     ind2 = indent + '  '
-    for imp in proc['imports']:
-        lines += _use_stmt(imp, lay, ind2)
+    for n_, imp in enumerate(proc['imports']):
+        lines += _use_stmt(imp, lay, ind2, ren.get(n_))
     lines.append(f'{ind2}{lay.kw("implicit none")}')
     lines.append(f'{ind2}{lay.kw("integer")}, {lay.kw("intent")}(inout) :: a')
     for c in iface:         # explicit interface blocks for called free procedures (render_project(..., iface=True))
@@ -222,7 +234,8 @@ def _render_proc(proc, lay, indent, iface=()):
     if calls and lay.coin(0.3):
         calls.append(lay.rng.choice(calls))       # duplicate call statement: still one dependency
     for c in calls:
-        stmt = f'{lay.kw("call")} {lay.case(c, "use")}{" " if lay.coin(0.2) else ""}(a)'
+        w = alias.get(c, c)          # the name written at the call site (the local alias of a renamed import)
+        stmt = f'{lay.kw("call")} {lay.case(w, "use")}{" " if lay.coin(0.2) else ""}(a)'
         guard = c == name   # recursion must terminate syntactically sensible; always guard self calls
         style = 0 if lay.plain else lay.rng.randrange(4)
         if guard or style == 1:
@@ -232,7 +245,7 @@ def _render_proc(proc, lay, indent, iface=()):
         elif style == 2:
             lines.append(f'{ind2}{lay.kw("if")} (a > 100) {stmt}')
         elif style == 3 and lay.coin(0.5):
-            lines.append(f'{ind2}{lay.kw("call")} {lay.case(c, "use")}( &')
+            lines.append(f'{ind2}{lay.kw("call")} {lay.case(w, "use")}( &')
             lines.append(f'{ind2}   & a)')
         else:
             lines.append(f'{ind2}{stmt}')
@@ -254,10 +267,27 @@ def free_callees(project, proc):
     return [c for c in dict.fromkeys(proc['calls']) if c in free and c != proc['name'] and c not in siblings and c not in imported]
 
 
-def render_project(project, root, rng=None, plain=False, suffixes=None, subdirs=None, layout=None, iface=False):
+def proc_renames(project, proc, renames):
+    """{import index: {callee: alias}} for procedure `proc`: a requested rename (renames = {"mod#proc": {callee: alias}})
+    is applied where the procedure's OWN import makes the callee accessible (ONLY list naming it, or an import without
+    ONLY list of the module that defines it); other requests are ignored."""
+    want = (renames or {}).get(full_name(proc), {})
+    out = {}
+    for n, im in enumerate(proc['imports']):
+        hit = {c: a for c, a in want.items() if c in proc['calls'] and c != proc['name'] and
+               (c in im['only'] or (not im['only'] and any(q['mod'] == im['mod'] and q['name'] == c for q in project['procs'])))}
+        hit = {c: a for c, a in hit.items() if not any(c in m for m in out.values())}
+        if hit:
+            out[n] = hit
+    return out
+
+
+def render_project(project, root, rng=None, plain=False, suffixes=None, subdirs=None, layout=None, iface=False, renames=None):
     """Write the project below `root`; returns {file id: path}. One Fortran file per distinct `file` id.
     layout: a ready Layout object (e.g. ClassLayout) instead of rng/plain; iface: declare called free procedures
-    in explicit interface blocks."""
+    in explicit interface blocks; renames: {"mod#proc": {callee: alias}} render imported callees under a local alias
+    (`use m, only: alias => callee` / `use m, alias => callee`, calls by the alias): the abstract project and its graph
+    are unchanged, renaming is a layout choice."""
     lay = layout or Layout(rng, plain)
     files = {}
     order = []
@@ -297,13 +327,13 @@ def render_project(project, root, rng=None, plain=False, suffixes=None, subdirs=
             if mprocs:
                 lines.append(lay.kw('contains'))
                 for p in mprocs:
-                    lines += _render_proc(p, lay, '  ', free_callees(project, p) if iface else ())
+                    lines += _render_proc(p, lay, '  ', free_callees(project, p) if iface else (), proc_renames(project, p, renames))
                     if lay.coin(0.5):
                         lines.append('')
             lines.append(f'{lay.kw("end module")} {lay.case(m["name"], "def")}')
             lines.append('')
         for p in files[fid]['procs']:
-            lines += _render_proc(p, lay, '', free_callees(project, p) if iface else ())
+            lines += _render_proc(p, lay, '', free_callees(project, p) if iface else (), proc_renames(project, p, renames))
             lines.append('')
         suf = (suffixes or {}).get(fid) or ('.F90' if lay.coin(0.4) else '.f90')
         sub = (subdirs or {}).get(fid) or ('' if not lay.coin(0.4) else lay.rng.choice(['src', 'module', 'src/deep']))
